@@ -487,11 +487,17 @@ func (p *Path) ReturnsNilError() (isNil, known bool) {
 	if c, ok := v.(*ssa.Const); ok {
 		return c.Value == nil, true
 	}
-	// err variable tested on this path?
-	t := p.Term(v)
-	for _, variant := range []string{"(" + t + " == nil)", "(nil == " + t + ")"} {
-		if val, k := p.CondVal(variant); k {
-			return val, true
+	// err variable tested on this path? (by value identity: the last test of this very value)
+	for i := len(p.Conds) - 1; i >= 0; i-- {
+		cd := p.Conds[i]
+		if bo, ok := cd.V.(*ssa.BinOp); ok && (bo.Op == token.EQL || bo.Op == token.NEQ) {
+			x, y := p.Resolve(bo.X), p.Resolve(bo.Y)
+			if cx, ok := x.(*ssa.Const); ok && cx.Value == nil && y == v {
+				return cd.Val, true
+			}
+			if cy, ok := y.(*ssa.Const); ok && cy.Value == nil && x == v {
+				return cd.Val, true
+			}
 		}
 	}
 	switch x := v.(type) {
